@@ -35,7 +35,8 @@ S = Suite(
           "square cells, 64x64 with 2:1 cells} x 3 reference positions (50N 11E, 33S 179.9E, "
           "0N 70W) x speeds 2.5/4/7 m/s x zm 2/3/4 m; nz = 8, 5 m cells, single precision; other "
           "heights, resolutions, off-centre towers not examined; 4 (quick) / 12 (thorough) directions through "
-          "run_bldfm_timeseries with use_cache and a repeated forcing (second step served from the cache)",
+          "run_bldfm_timeseries with use_cache and a repeated forcing (second step served from the cache); 2 / 8 directions on a "
+          "configuration rebuilt twice around the same tower objects (dataclasses.replace sweep)",
     rule="|bearing(centroid - tower) - wind_dir| <= 5 deg, centroid at least two cells away from "
          "the tower; |hypot(u,v) - s| <= 1e-12 s; cardinals to 1e-12 s",
 )
@@ -73,15 +74,28 @@ def bearing(wind_dir, mol, closure, grid, ref, wind_speed, zm, via="single"):
                    "ref_lat": ref_lat, "ref_lon": ref_lon},
         "towers": [{"name": "T", "lat": float(lat), "lon": float(lon), "z_m": zm}],
         "met": {"ustar": 0.1 * wind_speed, "mol": mol, "wind_speed": wind_speed,
-                "wind_dir": wind_dir if via == "single" else [wind_dir, wind_dir]},
+                "wind_dir": [wind_dir, wind_dir] if via == "series-cached" else wind_dir},
         "solver": {"closure": closure, "footprint": True},
-        "parallel": {"use_cache": via != "single"},
+        "parallel": {"use_cache": via == "series-cached"},
     })
     tw = cfg.towers[0]
     if abs(tw.x - xmax / 2.0) > 1e-6 or abs(tw.y - ymax / 2.0) > 1e-6:
         return Verdict(False, "tower local xy (%r,%r) is not the domain centre (%r,%r)"
                        % (tw.x, tw.y, xmax / 2.0, ymax / 2.0), key="tower-not-centred")
-    if via == "single":
+    if via == "rebuilt":
+        # a parameter sweep: the configuration is rebuilt (dataclasses.replace re-runs __post_init__) around the SAME
+        # tower objects, first with two other directions, then with the one under test
+        import dataclasses
+        for wd_other in (wind_dir + 120.0, wind_dir + 240.0):
+            cfg = dataclasses.replace(cfg, met=dataclasses.replace(cfg.met, wind_dir=wd_other % 360.0))
+        cfg = dataclasses.replace(cfg, met=dataclasses.replace(cfg.met, wind_dir=wind_dir))
+        tw = cfg.towers[0]
+        # the tower's true position comes from its lat/lon, not from what the object carries
+        from bldfm.config_parser import latlon_to_xy
+        tx, ty = latlon_to_xy(float(lat), float(lon), ref_lat, ref_lon)
+        r = run_bldfm_single(cfg, tw)
+        tw = type("TruePosition", (), {"x": tx, "y": ty})()
+    elif via == "single":
         r = run_bldfm_single(cfg, tw)
     else:
         import shutil
@@ -192,6 +206,10 @@ def generate(tier, rng):
     for k, wd in enumerate((0.0, 110.0, 270.0, 45.0) if q else range(0, 360, 30)):
         yield "bearing", dict(wind_dir=float(wd), mol=(1e9, -50.0, 100.0)[k % 3], closure=("MOST", "MOSTM")[k % 2],
                               grid=("square", "wide")[k % 2 if not q else (k // 2) % 2], ref=refs[k % 3], wind_speed=4.0, zm=3.0, via="series-cached")
+    # ... and on a configuration rebuilt twice around the same tower objects (a wind-direction sweep)
+    for k, wd in enumerate((30.0, 210.0) if q else range(15, 360, 45)):
+        yield "bearing", dict(wind_dir=float(wd), mol=(1e9, -50.0)[k % 2], closure="MOST", grid=("square", "wide")[k % 2], ref=refs[k % 3],
+                              wind_speed=4.0, zm=3.0, via="rebuilt")
     for k in range(12 if q else 96):
         yield "bearing", dict(wind_dir=round(rng.uniform(0.0, 360.0), 3),
                               mol=rng.choice([1e9, -50.0, 100.0, -15.0, 400.0]),
